@@ -573,6 +573,10 @@ def mb_check_fault(o: Oracle, sess: MbSession, k: int, op: dict, res: Res, pre: 
             o.check("F1", done, "write:" + name, "%s: True/SUCCESS reported, device's final status %r, effect complete: %s" % (where, core.last_final_status, done))
     elif res.exc is None:
         outcome = "failure_return"
+        # a positive return value (True / data) is the success indication of the call; together with an error
+        # status it reports success for an operation the host itself knows to have failed
+        if d.kind == "write" and res.value is True and sess.status() != 0:
+            o.fail("F1", "true_with_error_status:" + name, "%s: returned True although status_code is %d" % (where, sess.status()))
     if d.region:
         addr, data = d.region(op)
         post = core.mem.read(addr, len(data))
